@@ -25,3 +25,7 @@ func VerifDrainRPC() (n int) {
 		}
 	}
 }
+
+// VerifSetShardNo scales the number of shards down for schedule exploration (the cache code is
+// generic in shardNo); returns the previous value.
+func VerifSetShardNo(n int) int { o := shardNo; shardNo = n; return o }
